@@ -242,20 +242,18 @@ impl Node {
                     am.bytes(4, s.as_bytes());
                     am.varint(20, 3);
                 }
+                // onnx.proto is proto2: repeated scalar attribute fields are
+                // NOT packed (one tag per element), unlike TensorProto data.
                 Attr::Ints(v) => {
-                    let mut p = Vec::new();
                     for x in v {
-                        pb::put_varint(&mut p, *x as u64);
+                        am.varint(8, *x as u64);
                     }
-                    am.bytes(8, &p);
                     am.varint(20, 7);
                 }
                 Attr::Floats(v) => {
-                    let mut p = Vec::new();
                     for x in v {
-                        p.extend_from_slice(&x.to_le_bytes());
+                        am.fixed32(7, x.to_bits());
                     }
-                    am.bytes(7, &p);
                     am.varint(20, 6);
                 }
                 Attr::Strs(v) => {
